@@ -365,8 +365,15 @@ def run(ctx):
     big = (1 << 24) + 3
     xb = torch.zeros(big)
     yb = torch.ones(big)
-    for kind in ("ber", "bler"):
+    for kind, prehist in (("ber", ""), ("bler", ""), ("ber", "update; reset"), ("bler", "update; reset"), ("ber", "update; compute; reset; reset")):
         m = BitErrorRate() if kind == "ber" else blermod.BlockErrorRate(block_size=1)
+        for op in [o.strip() for o in prehist.split(";") if o.strip()]:      # the object has a past: counts must restart exactly
+            if op == "update":
+                m.update(torch.tensor([[1.0, 0.0, 1.0]]), torch.tensor([[0.0, 0.0, 1.0]]))
+            elif op == "compute":
+                m.compute()
+            else:
+                m.reset()
         m.update(xb, yb) if kind == "ber" else m.update(xb.reshape(1, -1), yb.reshape(1, -1))
         small = 3000
         for i in range(small):
@@ -381,9 +388,9 @@ def run(ctx):
         ctx.nontriv(("long", kind))
         if (tot, err) != (big + small + 5, big + 5) or abs(val - exp) > 2e-7:
             ctx.violation("C16/%s/streaming/long-accumulation" % ("BitErrorRate" if kind == "ber" else "BlockErrorRate"),
-                          "after one batch of 2^24+3 erroneous items, %d clean and 5 erroneous single-item updates: counters (%d, %d), rate %.9f; exact (%d, %d), %.9f"
-                          % (small, tot, err, val, big + small + 5, big + 5, exp),
-                          {"history": "update(2^24+3 errors); %d x update(1 clean); 5 x update(1 error); compute" % small})
+                          "%safter one batch of 2^24+3 erroneous items, %d clean and 5 erroneous single-item updates: counters (%d, %d), rate %.9f; exact (%d, %d), %.9f"
+                          % (("after the history [%s], " % prehist) if prehist else "", small, tot, err, val, big + small + 5, big + 5, exp),
+                          {"history": "%s%supdate(2^24+3 errors); %d x update(1 clean); 5 x update(1 error); compute" % (prehist, "; " if prehist else "", small)})
     ctx.assumptions += ["int64 counters do not overflow (model counters are unbounded N)",
                         "the float32 returned by compute() is compared with the correctly rounded exact ratio (relative 1e-6)"]
     ctx.cov["exhaustive"] = True
